@@ -627,6 +627,15 @@ def correspond(ctx):
             ctx.fail("fsolver (axisymmetric): " + msg, problem=p, signature="harness-vs-binary")
             continue
         r = oracle(p, ans)
+        if r and r[1] in ("residual", "pbc-values", "prescribed-A"):
+            # the oracle's tolerances assume a converged solve, but the solvers stop at a RELATIVE residual over all rows (circuit
+            # rows dwarf node rows in fine length units): a deviation counts only if it survives re-solving the same problem with
+            # Precision 1e-11 (DESIGN 9.5)
+            p2 = dict(p, precision=1e-11)
+            d2, ans2, msg2 = run_case(ctx, "c%dp" % k, p2)
+            r2 = None if msg2 else oracle(p2, ans2)
+            ctx.res.cov["oracle_deviations_gone_at_tighter_precision"] = ctx.res.cov.get("oracle_deviations_gone_at_tighter_precision", 0) + (0 if (msg2 or r2) else 1)
+            r = None if not (msg2 or r2) else (r2 or r)
         if r:
             ctx.fail("fsolver (axisymmetric): " + r[0], problem=p, signature=r[1])
         sizes.append(d["nn"])
